@@ -82,7 +82,7 @@ class PropValue:
                 return False
             # Strings need some special handling
             if self.value.dtype == object and self.type.dtype == str:
-                return True
+                return all(isinstance(x, str) for x in self.value.flat)
             return self.value.dtype.type is self.type.dtype.type
         elif isinstance(self.type, Sequence):
             return isinstance(self.value, list) and all(
